@@ -1,12 +1,12 @@
-(* A printf interpreter for the directives that write_chain_atoms uses (%[-][width][.prec]s, %c, %W.Pf with the number
-   already turned into text) and the statement that the model's ATOM line (Pdb/AtomLine.v) IS what the two format
+(* A printf interpreter for the directives that write_chain_atoms uses (%[-][width][.prec]s, %c, %Wd, %W.Pf with the
+   number already turned into text) and the statement that the model's ATOM line (Pdb/AtomLine.v) IS what the two format
    strings in src/to_pdb.cpp produce from the atom's fields.  The format strings are regenerated from the source on
    every run (Pdb/AtomFmt_gen.v), so an edit of a width, a precision or a literal blank in the source changes the
    theorem that the kernel checks. *)
 From GV Require Import Base.Str Pdb.Hy36 Pdb.AtomLine Pdb.AtomFmt_gen.
 Local Open Scope Z_scope.
 
-Inductive farg := AStr (s : str) | AChar (c : Z) | ANum (text : str).
+Inductive farg := AStr (s : str) | AChar (c : Z) | ANum (text : str) | AInt (n : Z).
 
 (* digits of a width / precision *)
 Fixpoint fmt_num (acc : nat) (s : str) : nat * str :=
@@ -37,6 +37,10 @@ Fixpoint interp (fuel : nat) (f : str) (args : list farg) : option (list str) :=
         match interp fuel' rest args' with Some l => Some ([c] :: l) | None => None end
       | 102 :: rest, ANum s :: args' =>
         match interp fuel' rest args' with Some l => Some (s :: l) | None => None end
+      | 100 :: rest, AInt n :: args' =>       (* %Nd *)
+        match interp fuel' rest args' with Some l => Some (rjust w (print_dec n) :: l) | None => None end
+      | 122 :: 117 :: rest, AInt n :: args' =>       (* %Nzu *)
+        match interp fuel' rest args' with Some l => Some (rjust w (print_dec n) :: l) | None => None end
       | _, _ => None
       end
     | c :: t => match interp fuel' t args with Some l => Some ([c] :: l) | None => None end
@@ -71,7 +75,8 @@ Proof.
   assert (E2 : interp 100 atom_fmt2 (args2 t occ b) =
     Some [occ; b; [32]; [32]; [32]; [32]; [32]; [32]; apply_s true 4 (Some 4%nat) (t_segment t);
           apply_s false 2 None (t_el t); [fst (write_charge (t_charge t))]; [snd (write_charge (t_charge t))]]) by reflexivity.
-  rewrite E1, E2. f_equal. unfold atom_line, atom_pieces, apply_s, field5, rjust, ljust_trunc, rjust_trunc, rjust, REC_ATOM, REC_HETATM.
+  rewrite E1, E2. f_equal. unfold atom_line, atom_pieces, atom_head. cbn [app].
+  unfold apply_s, field5, rjust, ljust_trunc, rjust_trunc, rjust, REC_ATOM, REC_HETATM.
   cbn [concat]. rewrite !app_nil_r. rewrite <- !app_assoc. cbn [app].
   destruct (t_het t); cbn [length Nat.sub repeat app]; reflexivity.
 Qed.
